@@ -108,8 +108,9 @@ TIMEOUT_IS_VIOLATION = False
 # always (tiny random graphs coincide now and then)
 CONFIRM_TRIES = 6
 CONFIGS = {
-    "quick": [("inproc", 1800), ("lib", 6000), ("proc", 130)],
-    "thorough": [("inproc", 6), ("lib", 2), ("proc", 3)],
+    "quick": [("inproc", 1800), ("lib", 6000), ("proc", 130),
+              ("proclib", 60)],
+    "thorough": [("inproc", 6), ("lib", 2), ("proc", 3), ("proclib", 1)],
 }
 CHUNK = 40
 # runs of this check cost 30-800 ms each: smaller determinism sample
@@ -132,8 +133,21 @@ def _workdir():
     return _WORK
 
 
+PROCLIB_SEEDS = ["('run', 3)", "'text'", "2.5", "b'abc'",
+                 "frozenset({1, 2, 3})", "('a', ('b', 1.5))", "7"]
+
+
 def generate(rng, config):
     seed = rng.choice(SEEDS + [rng.randrange(2 ** 32), rng.randrange(1000)])
+    if config == "proclib":
+        # a library generator with a seed that is not an integer, called in
+        # two interpreters with different hash seeds
+        return {"proclib": rng.choice(["RandomKCNF", "RandomKXOR"]),
+                "seedexpr": rng.choice(PROCLIB_SEEDS),
+                "n": rng.randint(3, 9), "k": rng.randint(1, 3),
+                "m": rng.randint(1, 6),
+                "hashseeds": [str(rng.choice([0, 1, 4242])),
+                              str(rng.randrange(1, 2 ** 32))]}
     if config == "lib":
         kind = rng.choice(["randkcnf", "randkxor", "glrd", "glrm", "glrp",
                            "regular", "addedges", "addedges_bip",
@@ -305,7 +319,45 @@ def _run_inproc(case, pre, garbage, which=0):
     return o, sim
 
 
+def _exec_proclib(case, ctx):
+    code = ("import cnfgen\n"
+            "F = cnfgen.%s(%d, %d, %d, seed=%s)\n"
+            "print(F.number_of_variables(), list(F))\n" % (
+                case["proclib"], min(case["k"], case["n"]), case["n"],
+                case["m"], case["seedexpr"]))
+    outs = []
+    for hs in case["hashseeds"]:
+        env = {"PATH": os.environ.get("PATH", "/usr/bin:/bin"),
+               "PYTHONPATH": REPO, "PYTHONHASHSEED": hs,
+               "PYTHONDONTWRITEBYTECODE": "1"}
+        p = subprocess.run([sys.executable, "-W", "ignore", "-c", code],
+                           capture_output=True, env=env, timeout=110)
+        outs.append((p.returncode, p.stdout, p.stderr[-300:]))
+        ctx.fault("fresh_process")
+    ctx.fault("hashseed_varied")
+    ctx.log("proclib", case["proclib"], case["seedexpr"],
+            [o[0] for o in outs])
+    ctx.shape = (case["proclib"], case["seedexpr"], case["n"], case["k"],
+                 case["m"])
+    ctx.nontrivial = outs[0][0] == 0
+    where = "cnfgen.%s(%d, %d, %d, seed=%s)" % (
+        case["proclib"], min(case["k"], case["n"]), case["n"], case["m"],
+        case["seedexpr"])
+    if outs[0][0] != outs[1][0]:
+        raise Violation("C07/proclib/exit-status-differs", "%s\n%r\n%r" %
+                        (where, outs[0], outs[1]))
+    if outs[0][0] == 0 and outs[0][1] != outs[1][1]:
+        raise Violation("C07/proclib/output-differs",
+                        "%s\nPYTHONHASHSEED=%s: %s\nPYTHONHASHSEED=%s: %s" %
+                        (where, case["hashseeds"][0],
+                         outs[0][1].decode()[:300], case["hashseeds"][1],
+                         outs[1][1].decode()[:300]))
+    ctx.probe("library generator reproduced in another process")
+
+
 def execute(case, ctx):
+    if "proclib" in case:
+        return _exec_proclib(case, ctx)
     if "lib" in case:
         return _exec_lib(case, ctx)
     if "hashseeds" in case:
